@@ -1,12 +1,13 @@
 /- Line-protocol ops for the lock-protocol transition system (C07).
 
-   c07.run <prog> <target> <actors> <schedule>
+   c07.run <prog> <target> <dir> <actors> <schedule>
      prog     : `gen` (the program the translator read off the source) | `old` (before dd7ffc5)
      target   : `x` (no file at `f`) or the hex content of the initial file (`-` = empty)
-     actors   : `|`-separated  <fsync 0/1><perm 0/1>:<body>:<hW>:<hC>;  op lists are `.`-separated
-                `w<hex>` / `c` / `a`, `_` = empty list
+     dir      : `1` / `0` — does the parent directory of `f` exist initially
+     actors   : `|`-separated  <fsync 0/1><perm 0/1><mkdirFirst 0/1>:<body>:<hW>:<hC>;  op lists are `.`-separated
+                `w<hex>` / `c` / `a`, `_` = empty list;  `R` = a pruner (one rmdir of the parent directory)
      schedule : `,`-separated  <actor index>[!]   (`!` = the call fails with an injected error), `_` = empty
-   answer: one `call:outcome:content-of-f:lock-creator` per step, joined by `;`, then
+   answer: one `call:outcome:content-of-f:lock-creator:dir` per step, joined by `;`, then
            ` | done=<bits> owns=<bits> closed=<bits> committed=<hex|x per actor>`
    c07.program  ->  the generated program, for the evidence file
 -/
@@ -26,13 +27,15 @@ def parseOps (s : String) : Option (List Op) :=
   if s = "_" then some [] else (s.splitOn ".").mapM parseOp
 
 def parseActor (s : String) : Option Actor :=
+  if s = "R" then some Actor.pruner else
   match s.splitOn ":" with
   | [flags, body, hW, hC] =>
     match flags.toList with
-    | [f, p] => do
+    | [f, p, m] => do
       let f ← bool? (String.ofList [f])
       let p ← bool? (String.ofList [p])
-      some (Actor.init f p (← parseOps body) (← parseOps hW) (← parseOps hC))
+      let m ← bool? (String.ofList [m])
+      some { Actor.init f p (← parseOps body) (← parseOps hW) (← parseOps hC) with mkdirFirst := m }
     | _ => none
   | _ => none
 
@@ -56,32 +59,32 @@ def showLock (l : Option Nat) : String :=
 def bits (n : Nat) (f : Nat → Bool) : String :=
   String.ofList ((List.range n).map (fun i => if f i then '1' else '0'))
 
-def mkState (tgt : Option Bytes) (as : List Actor) : State := State.ofList tgt.isSome as
+def mkState (tgt : Option Bytes) (as : List Actor) (dir : Bool) : State := State.ofList tgt.isSome as dir
 
 def runTrace (P : Program) (init : Bytes) : State → Sched → List String → State × List String
   | s, [], acc => (s, acc.reverse)
   | s, (i, f) :: rest, acc =>
-    let call := (s.actors i).pc.call
+    let call := stepCall P s i
     let out := stepOut P s i f
     let s' := step P s i f
     runTrace P init s' rest
-      (s!"{call}:{out.name}:{showContent (content s' init)}:{showLock s'.fs.lock}" :: acc)
+      (s!"{call}:{out.name}:{showContent (content s' init)}:{showLock s'.fs.lock}:{showBool s'.fs.dir}" :: acc)
 
 def handle (op : String) (args : List String) : Option String :=
   match op, args with
-  | "c07.run", [prog, tgt, actors, sch] => some <|
+  | "c07.run", [prog, tgt, dir, actors, sch] => some <|
     let tgt? : Option (Option Bytes) := if tgt = "x" then some none else (bytes? tgt).map some
-    match parseProg prog, tgt?, (actors.splitOn "|").mapM parseActor, parseSched sch with
-    | some P, some t, some as, some sc =>
+    match parseProg prog, tgt?, (actors.splitOn "|").mapM parseActor, parseSched sch, bool? dir with
+    | some P, some t, some as, some sc, some d =>
       let n := as.length
       if sc.any (fun p => p.1 ≥ n) then "bad-arg" else
       let init := t.getD []
-      let (s, tr) := runTrace P init (mkState t as) sc []
+      let (s, tr) := runTrace P init (mkState t as d) sc []
       let fin := s!"done={bits n (fun i => (s.actors i).pc == .done)} owns={bits n (fun i => (s.actors i).owns)} closed={bits n (fun i => (s.actors i).closed)} committed={",".intercalate ((List.range n).map (fun i => showContent (s.actors i).committed))}"
       ";".intercalate tr ++ " | " ++ fin
-    | _, _, _, _ => "bad-arg"
+    | _, _, _, _, _ => "bad-arg"
   | "c07.program", [] => some <|
-    s!"openExcl={gitFile.openExcl} guardClose={gitFile.guardClose} closePre={gitFile.closePre.map (fun p => (p.1.name, p.2))} finallyAbort={gitFile.finallyAbort} markClosedOnReplace={gitFile.markClosedOnReplace} guardAbort={gitFile.guardAbort} abortRemoves={gitFile.abortRemoves} abortCloseInTry={gitFile.abortCloseInTry} wellBehaved={gitFile.wellBehaved} abortsOnAnyCloseFailure={gitFile.abortsOnAnyCloseFailure}"
+    s!"opens={gitFile.opens} guardClose={gitFile.guardClose} closePre={gitFile.closePre.map (fun p => (p.1.name, p.2))} finallyAbort={gitFile.finallyAbort} markClosedOnReplace={gitFile.markClosedOnReplace} guardAbort={gitFile.guardAbort} abortRemoves={gitFile.abortRemoves} abortCloseInTry={gitFile.abortCloseInTry} wellBehaved={gitFile.wellBehaved} abortsOnAnyCloseFailure={gitFile.abortsOnAnyCloseFailure}"
   | _, _ => none
 
 end DriverC07
